@@ -5,3 +5,4 @@ import ForsysModel.Driver.C17
 import ForsysModel.Driver.C18
 import ForsysModel.Driver.C14
 import ForsysModel.Driver.Time
+import ForsysModel.Driver.Pressure
